@@ -158,6 +158,9 @@ theorem stopStream_frames (c : Conn) (sid : Nat) : (stopStream c sid).2.frames =
   unfold stopStream; repeat' split
   all_goals simp [Out.error]
 
+theorem rxTransportParams_frames (c : Conn) (tp : TP) : (rxTransportParams c tp).2.frames = [] := by
+  unfold rxTransportParams; split <;> rfl
+
 theorem rxMaxData_frames (c : Conn) (v : Nat) : (rxMaxData c v).2.frames = [] := by
   unfold rxMaxData; split <;> rfl
 
@@ -237,6 +240,7 @@ theorem step_stream_frames {c : Conn} {op : Op} {f : WFrame} {sid : Nat}
       | (rw [resetStream_frames] at hf; simp at hf)
       | (rw [stopStream_frames] at hf; simp at hf)
       | (rw [rxMaxData_frames] at hf; simp at hf)
+      | (rw [rxTransportParams_frames] at hf; simp at hf)
       | (rw [rxMaxStreamData_frames] at hf; simp at hf)
       | (rw [rxMaxStreams_frames] at hf; simp at hf)
       | (rw [rxStopSending_frames] at hf; simp at hf)
